@@ -52,6 +52,27 @@ FAMILIES = {
         'thorough': dict(module='FMAstGen', consts=dict(ANames={'f1', 'f2', 'f3', 'f4'}, BinOps=LOGIC_BIN, Depth=1, GrowSteps=2, WithArith=False),
                          invariants=['L_Shape'], defaults=False, simulate=dict(num=5000, depth=3)),
     },
+    'DecorAttr': {
+        'quick':    dict(consts=dict(N=3, MaxKids=2, MinHi=1, Axes={'attr'}, AttrNames=['a1'],
+                                     AttrVals=[{'val': 'i:7', 'dom': '', 'nul': 'n'}]), invariants=tlc.GEN_INVARIANTS),
+        'thorough': dict(consts=dict(N=3, MaxKids=2, MinHi=1, Axes={'attr'}, AttrNames=['a1'],
+                                     AttrVals=[{'val': 'i:7', 'dom': '', 'nul': 'n'}]), invariants=tlc.GEN_INVARIANTS),
+    },
+    # histories: operation kind x sequences of pool models on one object; GenAttr parameter space
+    'Hist': {
+        'quick':    dict(module='FMHist', defaults=False, invariants=['TypeOK'],
+                         consts=dict(Ops={'estimate', 'core', 'atomic', 'leaves', 'count_leaves', 'depth', 'abf',
+                                          'ancestors', 'varpoints', 'metrics'},
+                                     PoolSize=6, MaxLen=2,
+                                     DomShapes={'elements', 'intrange', 'floatrange', 'tworanges', 'mixture', 'mixedfloat', 'unset'},
+                                     Seeds={0, 1})),
+        'thorough': dict(module='FMHist', defaults=False, invariants=['TypeOK'],
+                         consts=dict(Ops={'estimate', 'core', 'atomic', 'leaves', 'count_leaves', 'depth', 'abf',
+                                          'ancestors', 'varpoints', 'metrics'},
+                                     PoolSize=6, MaxLen=3,
+                                     DomShapes={'elements', 'intrange', 'floatrange', 'tworanges', 'mixture', 'mixedfloat', 'unset'},
+                                     Seeds={0, 1, 2, 3, 4, 5, 6, 7})),
+    },
 }
 
 _cache = {}
